@@ -814,6 +814,20 @@ def watch_history(ctx, res, cp, prop, h, length=5, stack=False, ext_sources=Fals
         old_mtime_steps = {3, 4}
     if length >= 6:
         hist[5] = "loop add r0 r0 #1\nbrz nowhere\nhalt\n"
+    if length >= 7:
+        # an empty file is a valid program (nothing but the implicit HALT); here it follows a version that is not
+        hist[6] = ""
+    first_text = "halt\n"
+    if prop == "C19" and not symlinked and not stack:
+        # the file already has a label when `watch` starts, and the first version saved keeps it
+        first_text = "start add r0 r0 #1\nhalt\n"
+        hist[0] = "start add r0 r0 #3\nbrp start\nhalt\n"
+    # a version written to a temporary file in the watched folder itself, left there for two seconds, then renamed
+    # over the watched file (what many editors do)
+    infolder_steps = {2} if not symlinked else set()
+    # ... and last of all a version that is not text at all (not UTF-8): an error for a fresh check, and whatever
+    # `watch` makes of it, it is not "no errors found"
+    hist.append(b"; caf\xe9\nloop add r0 r0 #1\nhalt\n")
     path = os.path.join(d, "w.asm")
     if symlinked:
         # the watched name is a symbolic link; versions alternate between two files and the link is
@@ -824,7 +838,7 @@ def watch_history(ctx, res, cp, prop, h, length=5, stack=False, ext_sources=Fals
         os.symlink("version_a.asm", path)
         old_mtime_steps = set()
     else:
-        _write(path, "halt\n")
+        _write(path, first_text)
     exe = common.cli_bin(ctx)
     env = dict(common.ENV, NO_COLOR="1")
     # the log and the files for the fresh checks live OUTSIDE the watched directory: every write
@@ -860,6 +874,13 @@ def watch_history(ctx, res, cp, prop, h, length=5, stack=False, ext_sources=Fals
                 before = os.path.getsize(logpath)
                 _write(t, src)
                 res.cls("watch_through_a_symlink_pointed_elsewhere")
+            elif k in infolder_steps:
+                tmp = os.path.join(d, ".w.asm.swp~")
+                _write(tmp, src)
+                time.sleep(2.2)
+                before = os.path.getsize(logpath)
+                os.replace(tmp, path)
+                res.cls("watch_rewrite_by_rename_within_the_folder")
             elif k in old_mtime_steps:
                 tmp = os.path.join(side, "restored.asm")
                 _write(tmp, src)
@@ -878,6 +899,18 @@ def watch_history(ctx, res, cp, prop, h, length=5, stack=False, ext_sources=Fals
                     break
                 last = size
             out = open(logpath, "rb").read()[before:].decode("utf-8", "replace")
+            if k in infolder_steps and "Re-checking" not in out:
+                for _again in range(2):
+                    tmp = os.path.join(d, ".w.asm.swp~")
+                    _write(tmp, src)
+                    time.sleep(2.2)
+                    os.replace(tmp, path)
+                    time.sleep(3)
+                    out = open(logpath, "rb").read()[before:].decode("utf-8", "replace")
+                    if "Re-checking" in out:
+                        break
+                if "Re-checking" not in out:
+                    ignored_steps.add(k)
             if k in old_mtime_steps and "Re-checking" not in out:
                 # no re-check for a file moved into place? the same delivery twice more (a lost event is possible
                 # once; three times in a row it is the watcher that ignores the change)
@@ -913,7 +946,7 @@ def watch_history(ctx, res, cp, prop, h, length=5, stack=False, ext_sources=Fals
         fresh = lace(ctx, ["check", fresh_name] + fl, cwd=side)
         fresh_ok = fresh.rc == 0
         checks = [s for s in CLEAR.split(seg) if "Re-checking" in s]
-        detail = {"history": hist[:k + 1], "watch_output": seg[-800:], "fresh_check": fresh.brief()}
+        detail = {"history": [h if isinstance(h, str) else repr(h) for h in hist[:k + 1]], "watch_output": seg[-800:], "fresh_check": fresh.brief()}
         if not checks and k in ignored_steps and shown_ok is not None and shown_ok != fresh_ok:
             # the new text was moved into place three times and never looked at: what `watch` shows is the
             # verdict on a text that is gone
@@ -926,7 +959,8 @@ def watch_history(ctx, res, cp, prop, h, length=5, stack=False, ext_sources=Fals
             continue
         lastc = checks[-1]
         watch_ok = "no errors found" in lastc
-        watch_err = "Error" in lastc or "×" in lastc
+        # (a file that cannot be read as text makes `watch` report that and give up: an error all the same)
+        watch_err = "Error" in lastc or "×" in lastc or "Exiting..." in lastc
         if watch_ok == watch_err:
             res.inconclusive["watch output not understood"] = 1
             continue
@@ -942,12 +976,14 @@ def watch_history(ctx, res, cp, prop, h, length=5, stack=False, ext_sources=Fals
             if code_w and code_f and code_w.group(0) != code_f.group(0):
                 res.violate("%s/watch-diagnostic-differs" % prop,
                             "re-check #%d reports %s, a fresh check %s" % (k + 1, code_w.group(0), code_f.group(0)), detail)
-    if not alive:
+    if not alive and isinstance(hist[-1], bytes) and len(segments) == len(hist) and "Exiting..." in segments[-1]:
+        pass    # gave up on the last version, which cannot be read as text: said so, and that is an error report
+    elif not alive:
         if died_rc is not None and died_rc < 0:
             # killed from outside (signal): says nothing about lace
             res.inconclusive["lace watch was killed by signal %d" % -died_rc] = 1
         else:
-            res.violate("%s/watch-died" % prop, "`lace watch` exited (status %s) during the history" % died_rc, {"history": hist})
+            res.violate("%s/watch-died" % prop, "`lace watch` exited (status %s) during the history" % died_rc, {"history": [h if isinstance(h, str) else repr(h) for h in hist]})
 
 
 # ------------------------------------------------------------------ C04 (L2 sample)
